@@ -14,9 +14,11 @@ ASSUMPTIONS = ["tolerance 100 L^2 eps cond_inf(L) kappa_V relative, both compute
 
 def run(ctx):
     ss = S.generate(ctx, 12 if ctx.quick else 100, 3 if ctx.quick else 6, max_e=6 if ctx.quick else 8,
-                    max_loops=3 if ctx.quick else 5, routings_per_graph=3, scales=(1, 1, 1, Fraction(1, 2 ** 33), 2 ** 30), decouple=0.3, special=("vacuum", "vacuum"))
+                    max_loops=3 if ctx.quick else 5, routings_per_graph=3, scales=(1, 1, 1, Fraction(1, 2 ** 33), 2 ** 30), decouple=0.3, special=("vacuum", "vacuum", "vacuum_massless"))
     ss += S.generate(ctx, 4 if ctx.quick else 25, 2, max_e=10, max_loops=4, routings_per_graph=3,
                      names=["banana4", "ladder3x", "mercedes", "banana5"])
+    # seven loops (the matrix routine is specified for dimensions 1..8)
+    ss += S.generate(ctx, 1 if ctx.quick else 4, 2, max_e=8, max_loops=7, routings_per_graph=2, names=["banana8"], kinds=("uniform",))
     S.run(ss)
     SC.corr_uv(ctx, ss)
     groups = {}
